@@ -30,6 +30,7 @@ func runC12(c *Ctx) {
 			nh := "fixedtree.nodeHash(n, var:children[0], var:children[1])"
 			c.MP(cl, "continue only after the node's own validity check", cont, 1, GOk("n.IsValid(b)"))
 			c.MP(cl, "continue only after the node hash was recomputed", cont, 1, GOk(nh))
+			c.MP(cl, "continue only for a key not seen at an earlier node (a duplicated key has no sound proof)", cont, 1, GFalse("*[n.Key()]#1"))
 			c.MP(cl, "continue only after the stored hash equals the recomputed one", cont, 1, GTrue("n.Hash().Equal("+nh+"#0)"), GTrue(nh+"#0.Equal(n.Hash())"))
 			c.MP(cl, "continue only with the children resolved (or the node is a leaf)", cont, 1,
 				GOk("fixedtree.childrenNodes(t.nodes, index)"), GTrue("errors.Is(fixedtree.childrenNodes(t.nodes, index)#1, fixedtree.errNoChildren)"))
@@ -92,6 +93,38 @@ func runC12(c *Ctx) {
 // fixedtreeProofRules (shared by C12 and C13): the node hash binds key and both children, and
 // Proof.Prove/IsValid accept only a chain of recomputed hashes from the proved key to the root.
 func fixedtreeProofRules(c *Ctx, r2, r3 string) {
+	if fn := c.Need("util/fixedtree.nodeHash"); fn != nil {
+		c.Rule(r2, "NilGuard")
+		for _, side := range []string{"left", "right"} {
+			c.MP(fn, "the "+side+" child's hash is used only after a nil test", c.CallsD(fn, side+".Hash().Bytes()"), 1, GNonNil(side+".Hash()"))
+		}
+	}
+	// what a proof cannot bind (known findings): the keys of the nodes off the proved path, and the
+	// boundary between key and child hashes inside the hashed bytes
+	c.Rule(r3+"k", "Dependence")
+	if fn := c.Need("util/fixedtree.(Proof).Prove"); fn != nil {
+		// every node of the proof has a key; only the proved node's and its ancestors' keys enter a
+		// recomputed hash (nodeHash(parent, children...) hashes the parent's key and the children's hashes)
+		keyed := 0
+		if nh := c.Need("util/fixedtree.nodeHash"); nh != nil {
+			keyed = len(c.CallsD(nh, "left.Key()")) + len(c.CallsD(nh, "right.Key()"))
+		}
+		c.Report(fn, "the keys of all proof nodes are bound by a recomputed hash (children's keys enter the parent's hash)", fn.Pos(), keyed > 0,
+			"nodeHash hashes self.Key() and the children's hashes only: keys of siblings and of the proved node's children can be changed without effect")
+	}
+	if fn := c.Need("util/fixedtree.nodeHash"); fn != nil {
+		// framed: some part of the digest input is derived from a length (or there is no plain
+		// concatenation of the three parts at all)
+		framed := len(c.CallsD(fn, "util.ConcatBytesSlice(*)")) == 0
+		for _, st := range c.StoresD(fn, "&var:varargs[*]") {
+			d := c.D(st.(*ssa.Store).Val)
+			if strings.Contains(d, "len(") || strings.Contains(d, "Uint64ToBytes") || strings.Contains(d, "Int64ToBytes") {
+				framed = true
+			}
+		}
+		c.Report(fn, "the hashed bytes keep key and child hashes apart (length framing or fixed widths)", fn.Pos(), framed,
+			"plain concatenation key||left||right: bytes can move between the key and a child hash, and a leaf key can absorb two child hashes")
+	}
 	// R12.2 -------------------------------------------------------------------------------------
 	c.Rule(r2, "Dependence")
 	if fn := c.Need("util/fixedtree.nodeHash"); fn != nil {
